@@ -5,6 +5,16 @@ ROOT = os.path.dirname(os.path.dirname(os.path.abspath(__file__)))
 
 TECH = "deterministic simulation with fault injection: "
 CHECKS = {
+ "C14": dict(
+   text="Seeded machine states encoded by independent SNA / SZX / SCR writers (chunk order permuted, pages stored or zlib-compressed, unknown chunks, optional AY/KEYB/AMXM/CRTR chunks) are loaded through chunking assets into seeded dirty receivers (halted, mid prefix chain, EI pending, paging locked on another bank, other border/IM/IFF, after a program ran, AY programmed) and into a fresh one: field-by-field state comparison, display vs RefScreen, identical continuation of dirty and fresh receiver, AY read-back and PCM against a twin programmed through the ports, joystick/mouse presence, SZX HALTED/EILAST behaviour, identical continuation of SNA / stored-SZX / zlib-SZX encodings of one state, and the model-mismatch matrix (Err or correct layout, never a panic). The load at an arbitrary instant into an arbitrary receiver is this technique's crash/restart analogue: only what the file carries survives. Sampling, not proof.",
+   note="Writers follow the public format documents (DESIGN appendix E); what a format cannot carry is equalised before continuation; SZX HALTED accepted under either PC convention; AY PCM compared bit-exactly for fresh receivers only; SCR with the shadow screen displayed not asserted.",
+   technique=TECH+"snapshot load injected at seeded instants into seeded dirty receivers; twin-machine continuation and reference-state comparison",
+   ref="5 (C14)", cat="exploration"),
+ "C15": dict(
+   text="Fault enumeration: for a corpus file of each format (SNA, SZX, SCR, TAP, ROM, gzip, VTX; from independent writers and the repository) the load is repeated with a read error and with a seek error at every asset call index, with short reads, both EOF styles and truncation at structural prefixes. Plus seeded structure-aware mutations (length/size/count fields, non-UTF-8 ids, out-of-range IM/border/page values, duplicated/shortened chunks, oversize) and random byte strings up to 160 KiB. Oracles: no panic and no arithmetic overflow (harness built with overflow checks), asset-call budget (deterministic hang detector), single-allocation bound, and the machine still emulates frames afterwards.",
+   note="Enumeration is over fault positions of one load, not over all inputs; mutations and random strings are sampled. Allocation failure itself cannot be injected in-process (it aborts); the bound on the largest single request stands in for it. One known finding: a panic inside the third-party delharc LH5 decoder.",
+   technique=TECH+"enumeration of asset failure positions plus seeded structure-aware corruption of the real loaders' inputs",
+   ref="5 (C15)", cat="fault_enumeration"),
  "C18": dict(
    text="The real AymPrecise driven by seeded register-write histories interleaved with sample generation at seeded sample rates (8-384 kHz), chips (AY/YM) and stereo modes, followed by one probe segment whose PCM is measured: tone pitch (zero crossings), TP=0 vs TP=1 stream identity, noise transition rate, envelope contour and repeat period for all 16 shapes, strictly increasing volume ladder, mixer gating for all 64 masks, panning per mode x channel, finiteness and bound; port read-back and register-number wrap through the real machine. Exploration with analytic, tolerance-based oracles - the weakest fit of the twenty (stated in DESIGN).",
    note="Tolerances: pitch 1.5%+2 Hz (f < 0.2*rate), noise rate +-15%, envelope repeat period +-3%, ramp timing coarse (+-7%); a 1% pitch error or a wrong noise polynomial would pass. The simulated dimension is the write/generate interleaving and the sample rate; pitch and shape clauses themselves are pure.",
